@@ -178,6 +178,8 @@ def to_model(x):
     """The expression as the Coq model reads it: the forms pydoctor delegates to astor become (13 text) leaves and every
     Attribute node carries astor's text of itself (the model decides whether it is a dotted name)."""
     t = x[0]
+    if t == 0 and x[1] == 0:
+        return [0, 0, str(const_value(0, x[2]))]     # the oracle str(number)
     if t in (0, 1):
         return x
     if t == 13:
